@@ -127,6 +127,19 @@ class Qt(Pt):
     pass
 
 
+GATE_HOOK = None    # set by a driver while it runs worker threads: called in the middle of every encoding of a Gt
+
+
+class Gt(Pt):
+    """Plain object (encodes exactly like a Pt of class lib.pyvals.Gt) whose state is asked for through a hook: a driver
+    uses it to hold several threads in the middle of an encoding of one shared argument (forced interleaving)."""
+    def __getstate__(self):
+        hook = GATE_HOOK
+        if hook is not None:
+            hook()
+        return object.__getstate__(self)
+
+
 class Unser(object):
     """An object whose serialization raises."""
     def __init__(self, tag=0):
@@ -163,13 +176,14 @@ class HandlerError(Exception):
 
 
 CLASSES = {"lib.pyvals.Pt": Pt, "lib.pyvals.Qt": Qt}
+EXTRA_CLASSES = {"lib.pyvals.Gt": Gt}      # resolvable by to_py, never drawn by rand_pyval
 _py_to_py_full = to_py
 
 
 def to_py(j):  # noqa: F811  (extends the matcher-domain version above)
     t = j["t"]
     if t == "obj":
-        o = CLASSES[j["cls"]]()
+        o = (CLASSES.get(j["cls"]) or EXTRA_CLASSES[j["cls"]])()
         for k, v in j["v"]:
             setattr(o, k, to_py(v))
         return o
